@@ -96,7 +96,7 @@ def run_vh(args, release=False, timeout=3600, stdin=None, check=True, env=None):
 
 # --------------------------------------------------------------------------- TLC
 RE_STATES = re.compile(r"(\d+) states generated, (\d+) distinct states found, (\d+) states left")
-RE_ACTION = re.compile(r"^<(\w+) line \d+, col \d+ to line \d+, col \d+ of module (\w+)>: (\d+):(\d+)")
+RE_ACTION = re.compile(r"^<(\w+) line \d+, col \d+ to line \d+, col \d+ of module (\w+)(?: \([\d ]+\))?>: (\d+):(\d+)")
 RE_INVVIOL = re.compile(r"Error: Invariant (\w+) is violated")
 RE_DEPTH = re.compile(r"The depth of the complete state graph search is (\d+)")
 
